@@ -40,6 +40,10 @@ func OverlapDocument(t *rapid.T, acyclic bool) *ref.Doc {
 		return twinRecursion(t)
 	case 1:
 		return exclusiveThenCommon(t)
+	case 2:
+		if !acyclic {
+			return exclusiveCycle(t)
+		}
 	}
 	nfrag := rapid.IntRange(1, 4).Draw(t, "nfrag")
 	names := make([]string, nfrag)
@@ -280,6 +284,45 @@ func twinRecursion(t *rapid.T) *ref.Doc {
 	b := mk("B", rapid.SampledFrom(objs).Draw(t, "cb"))
 	root := &ref.Selection{Kind: "Field", Name: rapid.SampledFrom([]string{"pet", "person", "q"}).Draw(t, "root"), Sels: []*ref.Selection{{Kind: "Spread", Name: "A"}, {Kind: "Spread", Name: "B"}}}
 	return &ref.Doc{Ops: []*ref.Operation{{Op: "query", Sels: []*ref.Selection{root}}}, Frags: []*ref.Fragment{a, b}}
+}
+
+// exclusiveCycle: three fragments that spread each other in a cycle; two of them (mostly on
+// different object types) select the same response name with sub-selections that spread
+// fragments of the cycle again; two are spread side by side. The compared-pairs memo of the merge
+// rule is then consulted with both exclusivity flags for the same pair, inside a cycle.
+func exclusiveCycle(t *rapid.T) *ref.Doc {
+	names := []string{"A", "B", "C"}
+	conds := []string{rapid.SampledFrom([]string{"Dog", "Dog", "Pet"}).Draw(t, "ta"), rapid.SampledFrom([]string{"Cat", "Cat", "Dog", "Pet"}).Draw(t, "tb"), rapid.SampledFrom([]string{"Pet", "Dog", "Cat"}).Draw(t, "tc")}
+	field := rapid.SampledFrom([]string{"friend", "friend", "owner"}).Draw(t, "field")
+	inner := func(frag string) []*ref.Selection {
+		if field == "owner" {
+			return []*ref.Selection{{Kind: "Field", Name: "pet", Sels: []*ref.Selection{{Kind: "Spread", Name: frag}}}}
+		}
+		return []*ref.Selection{{Kind: "Spread", Name: frag}}
+	}
+	var frags []*ref.Fragment
+	for i, n := range names {
+		f := &ref.Fragment{Name: n, TypeCond: conds[i]}
+		if i < 2 || rapid.Bool().Draw(t, "cfield") {
+			f.Sels = append(f.Sels, &ref.Selection{Kind: "Field", Alias: rapid.SampledFrom([]string{"", "", "f"}).Draw(t, "alias"), Name: field, Sels: inner(rapid.SampledFrom(names).Draw(t, "again"))})
+		}
+		if rapid.IntRange(0, 2).Draw(t, "leaf") == 0 {
+			f.Sels = append(f.Sels, leafSel(t))
+		}
+		// the cycle edge, sometimes reversed or doubled
+		next := names[(i+1)%3]
+		if rapid.IntRange(0, 5).Draw(t, "rev") == 0 {
+			next = names[(i+2)%3]
+		}
+		f.Sels = append(f.Sels, &ref.Selection{Kind: "Spread", Name: next})
+		if rapid.IntRange(0, 3).Draw(t, "shuffle") == 0 && len(f.Sels) > 1 {
+			f.Sels[0], f.Sels[len(f.Sels)-1] = f.Sels[len(f.Sels)-1], f.Sels[0]
+		}
+		frags = append(frags, f)
+	}
+	x, y := rapid.SampledFrom(names).Draw(t, "x"), rapid.SampledFrom(names).Draw(t, "y")
+	root := &ref.Selection{Kind: "Field", Name: rapid.SampledFrom([]string{"pet", "pet", "cd"}).Draw(t, "root"), Sels: []*ref.Selection{{Kind: "Spread", Name: x}, {Kind: "Spread", Name: y}}}
+	return &ref.Doc{Ops: []*ref.Operation{{Op: "query", Sels: []*ref.Selection{root}}}, Frags: frags}
 }
 
 // exclusiveThenCommon: two fragments meet first below same-named fields of two different
